@@ -239,6 +239,77 @@ fn multi_exact_small(mode: Mode, n: usize, fs: &[u32], k: &Costs) -> (i64, Vec<V
     (best, best_sol)
 }
 
+
+/// exact multi-output optimum with sharing for OR forms when every output has few implicants: enumerate, per output,
+/// every sub-list of its implicants that denotes it, then the product of these choices
+fn multi_exact_product(mode: Mode, n: usize, fs: &[u32], k: &Costs) -> Option<(i64, Vec<Vec<Term>>)> {
+    if mode == Mode::Esop {
+        return None;
+    }
+    let cands: Vec<(Term, u32)> = candidates(mode, n).into_iter().map(|t| (t, t.table(n))).collect();
+    let mut covers: Vec<Vec<Vec<usize>>> = Vec::new();
+    let mut product: u64 = 1;
+    for &f in fs {
+        let imp: Vec<usize> = (0..cands.len()).filter(|&i| cands[i].1 != 0 && (cands[i].1 & !f) == 0).collect();
+        if imp.len() > 12 {
+            return None;
+        }
+        let mut cs = Vec::new();
+        for s in 0u32..(1u32 << imp.len()) {
+            let mut t = 0u32;
+            let mut sel = Vec::new();
+            for (b, &i) in imp.iter().enumerate() {
+                if s >> b & 1 == 1 {
+                    t |= cands[i].1;
+                    sel.push(i);
+                }
+            }
+            if t == f {
+                cs.push(sel);
+            }
+        }
+        product = product.saturating_mul(cs.len() as u64);
+        covers.push(cs);
+    }
+    if product > 3_000_000 {
+        return None;
+    }
+    let mut best = i64::MAX;
+    let mut best_choice: Vec<usize> = Vec::new();
+    let mut idx = vec![0usize; fs.len()];
+    loop {
+        let mut used = vec![false; cands.len()];
+        let mut total = 0i64;
+        for (j, &c) in idx.iter().enumerate() {
+            let sel = &covers[j][c];
+            total += k.join(mode) * std::cmp::max(sel.len() as i64 - 1, 0);
+            for &i in sel {
+                if !used[i] {
+                    used[i] = true;
+                    total += k.term(mode, &cands[i].0);
+                }
+            }
+        }
+        if total < best {
+            best = total;
+            best_choice = idx.clone();
+        }
+        let mut j = 0;
+        loop {
+            if j == idx.len() {
+                let sol = best_choice.iter().enumerate().map(|(j, &c)| covers[j][c].iter().map(|&i| cands[i].0).collect()).collect();
+                return Some((best, sol));
+            }
+            idx[j] += 1;
+            if idx[j] < covers[j].len() {
+                break;
+            }
+            idx[j] = 0;
+            j += 1;
+        }
+    }
+}
+
 fn fwitness(mode: Mode, sol: &[Vec<Term>]) -> String {
     let one = |ts: &Vec<Term>| -> String {
         let cs: Vec<String> = ts.iter().filter(|t| matches!(t, Term::Cube(..))).map(|t| t.fmt()).collect();
@@ -281,6 +352,8 @@ fn one_case(c: &mut Ctx, mode: Mode, n: usize, fs: &[u32], and: i32, xor: i32, o
         ("exact", multi_exact_small(mode, n, fs, &k).1)
     } else if fs.len() == 1 {
         ("exact", vec![single_exact(mode, n, fs[0], &k).1])
+    } else if let Some((_, sol)) = multi_exact_product(mode, n, fs, &k) {
+        ("exact", sol)
     } else {
         ("upper", fs.iter().map(|f| single_exact(mode, n, *f, &k).1).collect())
     };
@@ -370,9 +443,33 @@ pub fn c18(c: &mut Ctx) {
             one_case(c, Mode::Esop, n, &fs, a, x, o);
         }
     }
-    // the empty list
-    for &mode in &modes {
-        one_case(c, mode, 0, &[], 1, 1, 1);
+    // (the empty list is outside the property's quantifier - lists of 1..3 functions; HiGHS rejects the empty model
+    //  of optimize_sop_mip(&[]) with ModelEmpty, which the code unwraps)
+    // n = 3, 4: three outputs sharing a minterm m, each output a chain {m, m^a, m^a^b} in a different direction: the
+    // cheapest shared cube is then not prime for any single output (exact optimum by product of covers)
+    for _ in 0..(if thorough { 40 } else { 8 }) {
+        let n = 3 + c.rng.below(2);
+        let m = c.rng.below(1 << n) as u32;
+        let mut dirs: Vec<u32> = (0..n as u32).collect();
+        for i in (1..dirs.len()).rev() {
+            let j = c.rng.below(i + 1);
+            dirs.swap(i, j);
+        }
+        let fs: Vec<u32> = (0..3)
+            .map(|j| {
+                let a = 1u32 << dirs[j];
+                let mut b = 1u32 << dirs[c.rng.below(n)];
+                if b == a {
+                    b = 1u32 << dirs[(j + 1) % n];
+                }
+                (1u32 << m) | (1u32 << (m ^ a)) | (1u32 << (m ^ a ^ b))
+            })
+            .collect();
+        let (a, x, o) = if c.rng.coin() { (1, 1, 1) } else { cost_triple(c) };
+        one_case(c, Mode::Sop, n, &fs, a, x, o);
+        if c.rng.below(3) == 0 {
+            one_case(c, Mode::Sopes, n, &fs, a, x, o);
+        }
     }
     // n = 3: all single functions (quick: every 5th plus structured ones)
     for f in 0..256u32 {
